@@ -46,7 +46,7 @@ package service
 //@   ghost-ensures result1 != nil ==> failed
 //@   also-modifies failed
 //@ func (*Service).ProcessRequest
-//@   ghost-ensures result1 != nil ==> failed
+//@   ghost-ensures result1 != nil && !is(result1, *Redirect) ==> failed
 //@   also-modifies failed
 //@ func (*HTTPService).ServeHTTP
 //@   ensures[C18.http_error_is_400] failed ==> protested
